@@ -302,8 +302,41 @@ func (logicFamily) Exec(c *hc.Case) {
 	if !forward {
 		tags["clock:set_back"] = true
 	}
+	if c.ID%6 == 0 {
+		liveTimerProbe(c, tags)
+	}
 	for t := range tags {
 		c.Tags = append(c.Tags, t)
+	}
+}
+
+// liveTimerProbe: the hystrix closer on REAL timers (no substitute AfterFunc, wall clock), reconfigured while it is
+// open and inside its sleep window.  Under the old and under the new configuration alike a call that arrives after
+// the (longer of the two) sleep windows is admitted as a probe; so it is after a reconfiguration in between,
+// whatever the reconfiguration does to the pending timer.
+func liveTimerProbe(c *hc.Case, tags map[string]bool) {
+	ctx := context.Background()
+	for _, newSleep := range []time.Duration{30 * time.Millisecond, 45 * time.Millisecond} {
+		closer := hystrix.CloserFactory(hystrix.ConfigureCloser{SleepWindow: 30 * time.Millisecond, HalfOpenAttempts: 1, RequiredConcurrentSuccessful: 1})().(*hystrix.Closer)
+		t0 := time.Now()
+		closer.Opened(ctx, t0)
+		if closer.Allow(ctx, time.Now()) {
+			continue // the sleep window itself is C03's business
+		}
+		time.Sleep(5 * time.Millisecond)
+		closer.SetConfigThreadSafe(hystrix.ConfigureCloser{SleepWindow: newSleep, HalfOpenAttempts: 1, RequiredConcurrentSuccessful: 2})
+		admitted := false
+		for time.Since(t0) < 3*time.Second {
+			time.Sleep(20 * time.Millisecond)
+			if time.Since(t0) > 50*time.Millisecond && closer.Allow(ctx, time.Now()) {
+				admitted = true
+				break
+			}
+		}
+		tags["live-timer-reconf"] = true
+		if !admitted {
+			c.Viol = append(c.Viol, hc.Violation{Clause: "C11: each call observes, for every setting, either the old or the new value", Detail: fmt.Sprintf("hystrix closer on real timers, opened with SleepWindow 30ms, reconfigured 5 ms later (SleepWindow %v): no call was admitted as a probe during 3 s, an outcome of neither configuration", newSleep), AtOp: len(c.Ops)})
+		}
 	}
 }
 
